@@ -101,7 +101,8 @@ def run(ctx):
     td = m.func("to_density_matrix.to_density_matrix")
     Nt = Normalizer(m, td, inline=False)
     outs = [Nt(n) for n in walk_no_nested(td.node) if isinstance(n, ast.Call) and m.resolve_call(td, n).key == "numpy.outer"]
-    okc = bool(outs) and all(len(t[2]) == 2 and t[2][1] == ("conj", t[2][0]) for t in outs)
+    # numpy.outer(a, b) normalises to a @ b.T, so outer(v, conj(v)) is v @ Dagger(v)
+    okc = bool(outs) and all(t[0] == "@" and len(t[1]) == 2 and t[1][1] == ("dag", t[1][0]) for t in outs)
     ctx.ob("R-COV", td, "|v><v| == outer(v, conj(v))", okc, f"{len(outs)} outer products conjugate the second factor" if okc else "an outer product does not conjugate its second factor (or conjugates the first)")
     passthrough = any(isinstance(n, ast.Assign) and unparse(n.value) == "input_array" for n in walk_no_nested(td.node))
     ctx.ob("R-PRED", td, "square input is returned unchanged", passthrough, "density matrices pass through" if passthrough else "square inputs are transformed")
